@@ -103,6 +103,8 @@ def world():
     W.np, W.F, W.adict, W.OpenFilterLineage = np, F, adict, OpenFilterLineage
     W.video_in, W.video_out = video_in, video_out
     W.plant = False      # self-test switch: the VideoGear stand-in logs the source it is given
+    W.adapt, W.sim_ns = False, [1_700_000_000 * 1_000_000_000]
+    video_out.time_ns = lambda: W.sim_ns[0] if W.adapt else time.time_ns()
 
     class FakeMQ:
         LOG_MAP = F.MQ.LOG_MAP
@@ -115,6 +117,11 @@ def world():
             FakeMQ.current = self
 
         def recv(self, timeout=None):
+            self.nrecv = getattr(self, 'nrecv', 0) + 1
+            if W.adapt:            # simulated time of the writer: 120 frames at 15 fps, then 5 fps (an adaptive-fps restart)
+                W.sim_ns[0] += 1_000_000_000 // (15 if self.nrecv <= 120 else 5) + (self.nrecv % 3) * 1_000_000
+                if self.nrecv >= 290 and FakeMQ.stop_evt is not None:
+                    FakeMQ.stop_evt.set()
             img = np.zeros((4, 4, 3), np.uint8)
             return {t: F.Frame(img, {'meta': {'id': self.n, 'src_fps': 15}}, 'BGR') for t in ('main', 't2')}
 
@@ -123,7 +130,7 @@ def world():
                 frames = frames()
             self.sent.append(frames)
             self.n += 1
-            if self.n >= 2 and FakeMQ.stop_evt is not None:
+            if self.n >= 2 and FakeMQ.stop_evt is not None and not W.adapt:
                 FakeMQ.stop_evt.set()
             return True
 
@@ -152,8 +159,10 @@ def world():
             pass
 
     class FakeWrite:    # vidgear.gears.WriteGear
+        made = 0
+
         def __init__(self, output=None, **k):
-            pass
+            FakeWrite.made += 1
 
         def write(self, image):
             pass
@@ -164,7 +173,7 @@ def world():
     gears.VideoGear, gears.WriteGear = FakeGear, FakeWrite
     F.MQ = FakeMQ
     F.get_packages = lambda: []          # the DEBUG 'python packages' line costs 150 ms and shows no configuration
-    W.FakeMQ = FakeMQ
+    W.FakeMQ, W.FakeWrite = FakeMQ, FakeWrite
 
     class Probe(F.Filter):               # "the base filter": a minimal user filter
         def process(self, frames):
@@ -238,7 +247,7 @@ def build_config(W, vec, uris, salt=0):
         if cls_name == 'VideoIn':
             opts = {'norm_items': {'bogus': 1}, 'setup_quotes': {'maxsize': '100x100', 'resize': '50x50'}}.get(fault, {})
         else:
-            opts = {'setup_quotes': {'segtime': 1, 'fps': 15}}.get(fault, {'fps': 15})
+            opts = {'setup_quotes': {'segtime': 1, 'fps': 15}, 'adapt_restart': {'fps': True}}.get(fault, {'fps': 15})
         items = []
         for u, topic in zip(uris, topics):
             if len(nest) == 2:      # record form
@@ -248,7 +257,7 @@ def build_config(W, vec, uris, salt=0):
                     rec = Rec(rec)
                 items.append(rec)
             else:                   # string form 'uri!opt=val;topic'
-                items.append(u['uri'] + ''.join(f'!{k}={v}' for k, v in opts.items()) + f';{topic}')
+                items.append(u['uri'] + ''.join(f'!{k}' if v is True else f'!{k}={v}' for k, v in opts.items()) + f';{topic}')
         cfg[key] = ', '.join(items) if nest == [] else items
     else:
         text = (', ' if (salt >> 4) % 2 else ',').join(u['uri'] for u in uris)
@@ -290,6 +299,8 @@ def execute(vec, scheme_cls, chars_cls, salt, keep_text=False):
     F.Filter.emitter = em
     stop_evt = threading.Event()
     W.FakeMQ.stop_evt, W.FakeMQ.current = stop_evt, None
+    W.adapt = vec['cls'] == 'VideoOut' and vec['fault'] == 'adapt_restart'
+    W.FakeWrite.made = 0
     exc = None
     try:
         if vec['cls'] in RUN_CLASSES:
@@ -353,7 +364,8 @@ def execute(vec, scheme_cls, chars_cls, salt, keep_text=False):
     obs = {'status': status, 'leaks': leaks, 'mangled': mangled, 'config': cfg_repr,
            'exception': None if exc is None else f'{type(exc).__name__}: {exc}'[:300],
            'uris': [u['uri'] for u in uris], 'n_records': len(cap.records), 'n_events': len(client.events),
-           'n_frames': len(mq.sent) if mq else 0}
+           'n_frames': len(mq.sent) if mq else 0, 'n_writers': W.FakeWrite.made}
+    W.adapt = False
     if keep_text:
         obs['texts'] = {k: v for k, v in texts.items() if v}
     return obs
@@ -602,6 +614,10 @@ def run(ctx, only=None):
         per_class[vec['cls']] = per_class.get(vec['cls'], 0) + 1
         per_path[vec['path']] = per_path.get(vec['path'], 0) + 1
         per_fault[vec['fault']] = per_fault.get(vec['fault'], 0) + 1
+        if vec['fault'] == 'adapt_restart':
+            counts.setdefault('adapt', [0, 0])
+            counts['adapt'][0] += 1
+            counts['adapt'][1] += obs.get('n_writers', 0) > len(obs['uris'])
         if vec['key'] in ('sources', 'outputs') or vec['depth'] == 2:
             rep.sample({'cls': vec['cls'], 'config': obs['config'][:300], 'observed': obs['status'],
                         'predicted': vec['code']}, 6)
@@ -611,6 +627,13 @@ def run(ctx, only=None):
                      spec_predicted_leaks=sorted({f'{s}@{v["path"]}' + (f'/{v["fault"]}' if s == 'error_log' else '')
                                                   for v in vectors for s in SINKS if v['code'][s] == 'clear'}))
     submit(rep, pending)
+    if 'adapt' in counts:
+        rep.extra['adaptive_fps_runs'] = {'executions': counts['adapt'][0], 'stream_restarted_in': counts['adapt'][1]}
+
+        def _restarted():
+            if not counts['adapt'][1]:
+                raise MachineryError('no adaptive-fps run restarted its stream: the adapt_restart fault reaches nothing')
+        rep.selftest(_restarted)
     # vacuity: every sink must have been seen populated (masked or clear).  A sink the code no longer feeds is a loss of
     # conformance, not a violation; nothing populated at all means the harness itself is broken.
     populated = {s: any(counts['sink_status'].get(f'{s}:{st}') for st in ('masked', 'clear')) for s in SINKS}
